@@ -9,6 +9,12 @@ if repo not in sys.path:
 # speckit must be imported before numba so that its threading-layer default applies
 import speckit  # noqa: E402,F401
 
+import numba  # noqa: E402
+
+# 16 worker processes share 16 cores: keep the default team small; scenarios of the
+# real-numba world raise it explicitly (worlds.real_numba) up to NUMBA_NUM_THREADS.
+numba.set_num_threads(2)
+
 from dsim import worker  # noqa: E402
 
 if __name__ == "__main__":
